@@ -9,10 +9,10 @@ git -C /repo worktree remove --force $wt >/dev/null 2>&1
 git -C /repo worktree add -q $wt HEAD || exit 2
 trap 'git -C /repo worktree remove --force '$wt' >/dev/null 2>&1; git -C /repo worktree prune' EXIT
 cd $wt
-( ./autogen.sh && ./configure && make -j8 ) >/tmp/confirm-$name.build.log 2>&1 || { echo "$name BASE BUILD FAILED"; exit 2; }
+( ./autogen.sh && ./configure && make -j8 && make -j8 check TESTS= ) >/tmp/confirm-$name.build.log 2>&1 || { echo "$name BASE BUILD FAILED"; exit 2; }
 ( cd "$sd" && timeout -s KILL 300 ./demo.sh $wt ) >/tmp/confirm-$name.demo0.log 2>&1; d0=$?
 git apply "$sd/patch.diff" || { echo "$name PATCH DOES NOT APPLY"; exit 2; }
-make -j8 >/tmp/confirm-$name.build2.log 2>&1 || { echo "$name PATCHED BUILD FAILED"; exit 2; }
+( make -j8 && make -j8 check TESTS= ) >/tmp/confirm-$name.build2.log 2>&1 || { echo "$name PATCHED BUILD FAILED"; exit 2; }
 warn=$(grep -c 'warning:' /tmp/confirm-$name.build2.log)
 unshare -n sh -c 'ip link set lo up; make -j8 check' >/tmp/confirm-$name.check.log 2>&1
 p=$(grep -E "^# PASS:" /tmp/confirm-$name.check.log | awk '{s+=$3} END {print s+0}')
